@@ -65,6 +65,8 @@ func cmdVerify(args []string) {
 	repo := fs.String("repo", "/repo", "repository")
 	keep := fs.String("keep", "/tmp/govc-q", "query dir")
 	model := fs.Bool("model", false, "print values of SSA registers for sat obligations")
+	modelAll := fs.Bool("modelall", false, "with -model: also for undecided obligations (candidate model of the instantiated problem)")
+	onlyObl := fs.String("obl", "", "only solve obligations whose name contains this")
 	as := fs.String("as", "", "verify against interface contract (e.g. github.com/philpearl/avro.Codec.Read)")
 	fs.Parse(args)
 	t0 := time.Now()
@@ -86,11 +88,25 @@ func cmdVerify(args []string) {
 		}
 		c := e.contractFor(fn)
 		res := e.VerifyFunctionAs(fn, c, *panics, nil, *as)
+		if *onlyObl != "" {
+			var keepO []*Obligation
+			for _, o := range res.Obls {
+				if strings.Contains(o.Name, *onlyObl) {
+					keepO = append(keepO, o)
+				}
+			}
+			res.Obls = keepO
+		}
+		if *onlyObl != "" {
+			for _, o := range res.Obls {
+				fmt.Printf("  goal %s: %s\n", o.Name, e.tb.Show(o.Goal))
+			}
+		}
 		e.Solve(res.Obls, SolveCfg{TimeoutS: *timeout, Dir: *keep, Workers: 8})
 		printResult(e, res, *verbose)
 		if *model {
 			for _, o := range res.Obls {
-				if o.Result != nil && !o.Cover && (o.Result.Status == "sat" || o.Result.Model != "") {
+				if o.Result != nil && !o.Cover && (o.Result.Status == "sat" || o.Result.Model != "" || (*modelAll && o.Result.Status != "unsat")) {
 					fmt.Printf("  --- values for %s\n", o.Name)
 					printValues(e, o)
 				}
@@ -119,6 +135,15 @@ func printValues(e *Engine, o *Obligation) {
 	}
 	hyps := e.PrepareQF(o)
 	script := e.tb.Script(hyps, nil, true, false, terms...)
+	// drop the (quantified) copyrange axiom: we want a candidate model of the instantiated problem
+	var keepL []string
+	for _, l := range strings.Split(script, "\n") {
+		if strings.HasPrefix(l, "(assert (forall ((d (Array") {
+			continue
+		}
+		keepL = append(keepL, l)
+	}
+	script = strings.Join(keepL, "\n")
 	f := "/tmp/govc-values.smt2"
 	os.WriteFile(f, []byte(script), 0o644)
 	out, _ := exec.Command("z3-new", "-smt2", "-T:20", f).CombinedOutput()
